@@ -337,3 +337,229 @@ Proof.
   rewrite H in R. destruct R as (p' & r' & i' & _ & Eb & HQ). rewrite rev_involutive, firstn_skipn in Eb.
   specialize (HQ eq_refl). rewrite Eb in HQ. exact HQ.
 Qed.
+
+(* ---- the name and the colon (converse direction of C07, every input) ------------------------------------------------------------- *)
+Definition range_pre (pre : list byte) (a b : N) (p : byte -> bool) : Prop :=
+  forall j, a <= j -> j < b -> exists c, bpre pre j = Some c /\ p c = true.
+Definition nmb (c : byte) : bool := negb (is_ws c) && negb (c =? 58).
+
+Lemma range_zpre k pre rest a b p : b <= nnat (length pre) -> range_pre pre a b p -> range_pre (zpre k pre rest) a b p.
+Proof. intros Hb H j Ha Hj. destruct (H j Ha Hj) as (c & A & B). exists c. split; [|exact B]. rewrite bpre_zpre by lia. exact A. Qed.
+Lemma range_join pre a b c p : range_pre pre a b p -> range_pre pre b c p -> range_pre pre a c p.
+Proof. intros H1 H2 j Ha Hc. destruct (N.lt_ge_cases j b) as [H|H]; [apply H1|apply H2]; assumption. Qed.
+Lemma range_empty pre a p : range_pre pre a a p.
+Proof. intros j H1 H2. lia. Qed.
+Lemma nth_firstn_lt {A} (m : nat) : forall (l : list A) j, (j < m)%nat -> nth_error (firstn m l) j = nth_error l j.
+Proof. induction m as [|m IH]; intros [|x l] [|j] H; cbn; try lia; auto. apply IH. lia. Qed.
+(* the bytes just read *)
+Lemma range_new k m pre rest p : (m <= k)%nat -> (k <= length rest)%nat -> Forall (fun c => p c = true) (firstn m rest) ->
+  range_pre (zpre k pre rest) (nnat (length pre)) (nnat (length pre) + nnat m) p.
+Proof.
+  intros Hm Hk Hall j Ha Hb. set (j' := N.to_nat (j - nnat (length pre))).
+  assert (Hj' : (j' < m)%nat) by (unfold j', nnat in *; lia).
+  destruct (nth_error (firstn m rest) j') as [c|] eqn:En; [|apply nth_error_None in En; rewrite firstn_length in En; lia].
+  exists c. split.
+  - replace j with (nnat (length pre) + nnat j') by (unfold j', nnat in *; lia). rewrite bpre_new by lia.
+    rewrite <- En. symmetry. apply nth_firstn_lt. exact Hj'.
+  - rewrite Forall_forall in Hall. apply Hall. eapply nth_error_In. exact En.
+Qed.
+
+(* name, blanks, colon: cpos is the offset of the colon *)
+Definition colon_ok (pre : list byte) (i : N) (h : hdr) (cpos : N) : Prop :=
+  0 < pl (h_name h) /\ range_pre pre (po (h_name h)) (pf_end (h_name h)) nmb /\
+  pf_end (h_name h) <= cpos /\ cpos < i /\ range_pre pre (pf_end (h_name h)) cpos is_sp /\ bpre pre cpos = Some 58.
+Lemma colon_ok_zpre k pre rest i h cpos : i = nnat (length pre) -> colon_ok pre i h cpos -> colon_ok (zpre k pre rest) (i + nnat k) h cpos.
+Proof.
+  intros Hi (H1 & H2 & H3 & H4 & H5 & H6). split; [exact H1|]. split; [apply range_zpre; [lia|exact H2]|]. split; [exact H3|].
+  split; [lia|]. split; [apply range_zpre; [lia|exact H5]|]. rewrite bpre_zpre by lia. exact H6.
+Qed.
+
+Lemma colon_ok_name pre i h h' cpos : h_name h' = h_name h -> colon_ok pre i h cpos -> colon_ok pre i h' cpos.
+Proof. intros E H. unfold colon_ok in *. rewrite E. exact H. Qed.
+
+Definition NT (a : N) (pre : list byte) (i : N) (st : hline) : Prop :=
+  hx_pv st = None /\
+  let h := hx_h st in
+  match h_state h with
+  | HInit => i = a /\ pl (h_val h) = 0
+  | HName => po (h_name h) = a /\ pl (h_name h) = 0 /\ a <= i /\ range_pre pre a i nmb /\ pl (h_val h) = 0
+  | HNameEnd => po (h_name h) = a /\ 0 < pl (h_name h) /\ range_pre pre a (pf_end (h_name h)) nmb /\ pf_end (h_name h) <= i /\
+                range_pre pre (pf_end (h_name h)) i is_sp /\ pl (h_val h) = 0
+  | HBodyStart => po (h_name h) = a /\ pl (h_val h) = 0 /\ exists cpos, colon_ok pre i h cpos
+  | HVal | HValEnd => po (h_name h) = a /\ exists cpos, colon_ok pre i h cpos /\ cpos < po (h_val h)
+  | _ => True
+  end.
+(* on the whole buffer, at the return *)
+Definition brange (buf : list byte) (a b : N) (p : byte -> bool) : Prop :=
+  forall j, a <= j -> j < b -> exists c, nth_error buf (N.to_nat j) = Some c /\ p c = true.
+Definition name_colon (a : N) (buf : list byte) (h : hdr) : Prop :=
+  po (h_name h) = a /\ 0 < pl (h_name h) /\ brange buf a (pf_end (h_name h)) nmb /\
+  exists cpos, pf_end (h_name h) <= cpos /\ brange buf (pf_end (h_name h)) cpos is_sp /\ nth_error buf (N.to_nat cpos) = Some 58 /\
+    (pl (h_val h) = 0 \/ cpos < po (h_val h)).
+Definition NQ (a : N) (pre rest : list byte) (i o : N) (e : err) (st : hline) : Prop :=
+  e = EOk -> name_colon a (rev pre ++ rest) (hx_h st).
+
+Lemma range_buf pre rest a b p : b <= nnat (length pre) -> range_pre pre a b p -> brange (rev pre ++ rest) a b p.
+Proof. intros Hb H j Ha Hj. destruct (H j Ha Hj) as (c & A & B). exists c. split; [|exact B]. rewrite bpre_buf by lia. exact A. Qed.
+Lemma colon_buf a pre rest i h cpos : i = nnat (length pre) -> po (h_name h) = a -> colon_ok pre i h cpos ->
+  pl (h_val h) = 0 \/ cpos < po (h_val h) -> name_colon a (rev pre ++ rest) h.
+Proof.
+  intros Hi Ha (H1 & H2 & H3 & H4 & H5 & H6) Hv. split; [exact Ha|]. split; [exact H1|]. rewrite <- Ha.
+  split; [apply range_buf; [lia|exact H2]|]. exists cpos. split; [exact H3|]. split; [apply range_buf; [lia|exact H5]|].
+  split; [rewrite bpre_buf by lia; exact H6|exact Hv].
+Qed.
+
+Definition NT_res (a : N) (pre rest : list byte) (i : N) (r : ires hline) : Prop :=
+  match r with
+  | Next k st' => (0 < k)%nat -> (k <= length rest)%nat -> NT a (zpre k pre rest) (i + nnat k) st'
+  | Ret o e st' => NQ a pre rest i o e st'
+  | IPanic => True
+  end.
+
+(* the colon found k bytes further on, after a complete name and blanks *)
+Lemma colon_NT a pre rest i k st : i = nnat (length pre) -> hx_pv st = None -> po (h_name (hx_h st)) = a -> 0 < pl (h_name (hx_h st)) ->
+  pl (h_val (hx_h st)) = 0 -> pf_end (h_name (hx_h st)) <= i + nnat k ->
+  range_pre (zpre (S k) pre rest) a (pf_end (h_name (hx_h st))) nmb ->
+  range_pre (zpre (S k) pre rest) (pf_end (h_name (hx_h st))) (i + nnat k) is_sp ->
+  nth_error rest k = Some 58 ->
+  NT_res a pre rest i (hl_colon pre rest i k st).
+Proof.
+  intros Hi Hp Ha Hpl Hv Hle Hr1 Hr2 Hc. rewrite (colon_none pre rest i k st Hp). destruct (zget _ _ _ _) as [name|]; [|exact I].
+  unfold NT_res. intros _ Hk.
+  assert (Hb : bpre (zpre (S k) pre rest) (i + nnat k) = Some 58) by (rewrite Hi, bpre_new by lia; exact Hc).
+  assert (Hlt : i + nnat k < i + nnat (S k)) by (unfold nnat; lia).
+  rewrite <- Ha in Hr1. destruct st as [h pv]. destruct h as [ty nm vl hs]. cbn in *.
+  split; [exact Hp|]. split; [exact Ha|]. split; [exact Hv|]. exists (i + N.of_nat k).
+  unfold colon_ok. cbn. split; [exact Hpl|]. split; [exact Hr1|]. split; [exact Hle|].
+  split; [exact Hlt|]. split; [exact Hr2|exact Hb].
+Qed.
+
+Lemma name_ph_NT a pre rest i st : i = nnat (length pre) -> hx_pv st = None ->
+  po (h_name (hx_h st)) = a -> pl (h_name (hx_h st)) = 0 -> a <= i -> range_pre pre a i nmb -> pl (h_val (hx_h st)) = 0 ->
+  NT_res a pre rest i (hl_name_ph pre rest i st).
+Proof.
+  intros Hi Hp Ha Hn0 Hai Hr Hv. unfold hl_name_ph. cbv zeta.
+  destruct (span_split nmb rest) as (E1 & T1 & _). change (span nmb rest) with (skipTokenDelim 58 rest) in *.
+  set (k := skipTokenDelim 58 rest) in *.
+  assert (Lk : length (firstn k rest) = k) by (apply firstn_length_span).
+  destruct (skipn k rest) as [|c r] eqn:Sk; [intros E; discriminate E|].
+  assert (Hck : nth_error rest k = Some c).
+  { rewrite E1, nth_error_app2 by lia. rewrite Lk, Nat.sub_diag. reflexivity. }
+  assert (Hkl : (S k <= length rest)%nat).
+  { rewrite E1, app_length, Lk. cbn [length]. lia. }
+  assert (Hrange : range_pre (zpre (S k) pre rest) a (i + nnat k) nmb).
+  { apply (range_join _ a i); [apply range_zpre; [lia|exact Hr]|]. rewrite Hi. apply range_new; [lia|exact Hkl|exact T1]. }
+  unfold pf_extend. rewrite Ha. replace (i + nnat k <? a) with false by lia. cbv beta iota.
+  destruct (is_sp c) eqn:Esp.
+  - unfold pf_empty. cbn [pl]. destruct (i + nnat k - a =? 0) eqn:Ez; [intros E; discriminate E|].
+    unfold NT_res. intros _ _.
+    match goal with |- NT _ _ _ ?S => set (st' := S) end.
+    assert (F1 : hx_pv st' = None) by (subst st'; destruct st as [h pv]; exact Hp).
+    assert (F2 : h_state (hx_h st') = HNameEnd) by (subst st'; destruct st as [h pv]; destruct h; reflexivity).
+    assert (F3 : h_name (hx_h st') = mkpf a (i + nnat k - a)) by (subst st'; destruct st as [h pv]; destruct h; reflexivity).
+    assert (F4 : h_val (hx_h st') = h_val (hx_h st)) by (subst st'; destruct st as [h pv]; destruct h; reflexivity).
+    clearbody st'. unfold NT. split; [exact F1|]. cbv zeta. rewrite F2, F3, F4. unfold pf_end. cbn [po pl].
+    replace (a + (i + nnat k - a)) with (i + nnat k) by lia.
+    split; [reflexivity|]. split; [lia|]. split; [exact Hrange|]. split; [unfold nnat; lia|]. split; [|exact Hv].
+    intros j Hj1 Hj2. assert (j = nnat (length pre) + nnat k) by (unfold nnat in *; lia). subst j. exists c. split; [|exact Esp].
+    rewrite bpre_new by lia. exact Hck.
+  - destruct (c =? 58) eqn:Ec; [|intros E; discriminate E]. apply N.eqb_eq in Ec. subst c.
+    unfold pf_empty. cbn [pl]. destruct (i + nnat k - a =? 0) eqn:Ez; [intros E; discriminate E|].
+    match goal with |- NT_res _ _ _ _ (hl_colon _ _ _ _ ?S) => set (st' := S) end.
+    assert (F1 : hx_pv st' = None) by (subst st'; destruct st as [h pv]; exact Hp).
+    assert (F3 : h_name (hx_h st') = mkpf a (i + nnat k - a)) by (subst st'; destruct st as [h pv]; destruct h; reflexivity).
+    assert (F4 : h_val (hx_h st') = h_val (hx_h st)) by (subst st'; destruct st as [h pv]; destruct h; reflexivity).
+    clearbody st'.
+    assert (Epe : pf_end (h_name (hx_h st')) = i + nnat k) by (rewrite F3; unfold pf_end; cbn [po pl]; lia).
+    refine (colon_NT a pre rest i k st' Hi F1 _ _ _ _ _ _ Hck).
+    + rewrite F3. reflexivity.
+    + rewrite F3. cbn [pl]. lia.
+    + rewrite F4. exact Hv.
+    + rewrite Epe. lia.
+    + rewrite Epe. exact Hrange.
+    + rewrite Epe. apply range_empty.
+Qed.
+
+Lemma NT_step a pre rest i st : i = nnat (length pre) -> NT a pre i st -> NT_res a pre rest i (hl_iter pre rest i st).
+Proof.
+  intros Hi [Hp Hs]. cbv zeta in Hs. destruct rest as [|c r].
+  { unfold hl_iter, NT_res. intros E; discriminate E. }
+  destruct (h_state (hx_h st)) eqn:Est;
+    try (rewrite (hit_nopv pre c r i st) by (try rewrite Est; try reflexivity; try assumption); exact I).
+  - (* HInit *)
+    destruct Hs as [Hia Hv]. subst a. rewrite (hit_init pre c r i st Est).
+    destruct (is_cr c); [destruct r; intros E; discriminate E|]. destruct (is_lf c); [intros E; discriminate E|].
+    unfold pf_set. rewrite N.ltb_irrefl, N.sub_diag. cbv beta iota.
+    apply name_ph_NT; try assumption; try (destruct st as [h pv]; destruct h; cbn in *; auto; fail); [lia|apply range_empty].
+  - destruct Hs as (Ha & Hn0 & Hai & Hr & Hv). rewrite (hit_name pre _ i st Est). apply name_ph_NT; assumption.
+  - (* HNameEnd *)
+    destruct Hs as (Ha & Hpl & Hr & Hle & Hsp & Hv). rewrite (hit_nameend pre _ i st Est). unfold hl_nameend. cbv zeta.
+    destruct (span_split is_sp (c :: r)) as (E1 & T1 & _). change (span is_sp (c :: r)) with (skipWS (c :: r)) in *.
+    set (k := skipWS (c :: r)) in *. assert (Lk : length (firstn k (c :: r)) = k) by (apply firstn_length_span).
+    destruct (skipn k (c :: r)) as [|d r'] eqn:Sk; [intros E; discriminate E|].
+    destruct (d =? 58) eqn:Ed; [|intros E; discriminate E]. apply N.eqb_eq in Ed. subst d.
+    assert (Hkl : (S k <= length (c :: r))%nat) by (rewrite E1, app_length, Lk; cbn [length]; lia).
+    apply colon_NT; try assumption; [lia|apply range_zpre; [lia|exact Hr]| |].
+    + apply (range_join _ _ i); [apply range_zpre; [lia|exact Hsp]|]. rewrite Hi. apply range_new; [lia|exact Hkl|exact T1].
+    + rewrite E1, nth_error_app2 by lia. rewrite Lk, Nat.sub_diag. reflexivity.
+  - (* HBodyStart *)
+    destruct Hs as (Ha & Hv & cpos & Hc). rewrite (hit_bstart pre _ i st Est). unfold hl_bstart.
+    destruct (skipLWS false (c :: r)) as [k|k crl|k] eqn:El; [| |intros E; discriminate E].
+    + unfold pf_set. rewrite N.ltb_irrefl, N.sub_diag. cbv beta iota. unfold NT_res. intros _ Hk.
+      pose proof (colon_ok_zpre (S k) pre (c :: r) i (hx_h st) cpos Hi Hc) as Hc'.
+      match goal with |- NT _ _ _ ?S => set (st' := S) end.
+      assert (F1 : hx_pv st' = None) by (subst st'; destruct st as [h pv]; exact Hp).
+      assert (F2 : h_state (hx_h st') = HVal) by (subst st'; destruct st as [h pv]; destruct h; reflexivity).
+      assert (F3 : h_name (hx_h st') = h_name (hx_h st)) by (subst st'; destruct st as [h pv]; destruct h; reflexivity).
+      assert (F5 : h_val (hx_h st') = mkpf (i + nnat k) 0) by (subst st'; destruct st as [h pv]; destruct h; reflexivity).
+      clearbody st'. unfold NT. split; [exact F1|]. cbv zeta. rewrite F2, F3, F5. split; [exact Ha|].
+      exists cpos. split; [exact (colon_ok_name _ _ _ _ _ F3 Hc')|]. destruct Hc as (_ & _ & _ & H4 & _). cbn [po]. lia.
+    + intros _. apply (colon_buf a pre _ i _ cpos Hi); [destruct st as [h pv]; destruct h; cbn in *; exact Ha| |left; destruct st as [h pv]; destruct h; cbn in *; exact Hv].
+      destruct st as [h pv]; destruct h; cbn in *; exact Hc.
+  - (* HVal *)
+    destruct Hs as (Ha & cpos & Hc & Hcv). rewrite (hit_val pre _ i st Est). unfold hl_val. cbv zeta.
+    destruct (skipn (skipToken (c :: r)) (c :: r)) as [|d r'] eqn:Sk; [intros E; discriminate E|].
+    unfold pf_extend. destruct (i + nnat (skipToken (c :: r)) <? po (h_val (hx_h st))); [exact I|]. cbv beta iota.
+    unfold hl_valend. destruct (skipLWS false (d :: r')) as [k2|k2 crl|k2]; [| |intros E; discriminate E].
+    + unfold NT_res. intros _ Hk. set (kk := S (skipToken (c :: r) + k2)) in *.
+      pose proof (colon_ok_zpre kk pre (c :: r) i (hx_h st) cpos Hi Hc) as Hc'.
+      match goal with |- NT _ _ _ ?S => set (st' := S) end.
+      assert (F1 : hx_pv st' = None) by (subst st'; destruct st as [h pv]; exact Hp).
+      assert (F2 : h_state (hx_h st') = HVal) by (subst st'; destruct st as [h pv]; destruct h; reflexivity).
+      assert (F3 : h_name (hx_h st') = h_name (hx_h st)) by (subst st'; destruct st as [h pv]; destruct h; reflexivity).
+      assert (F5 : po (h_val (hx_h st')) = po (h_val (hx_h st))) by (subst st'; destruct st as [h pv]; destruct h; reflexivity).
+      clearbody st'. unfold NT. split; [exact F1|]. cbv zeta. rewrite F2, F3, F5. split; [exact Ha|].
+      exists cpos. split; [exact (colon_ok_name _ _ _ _ _ F3 Hc')|exact Hcv].
+    + intros _. apply (colon_buf a pre _ i _ cpos Hi); [destruct st as [h pv]; destruct h; cbn in *; exact Ha| |right; destruct st as [h pv]; destruct h; cbn in *; exact Hcv].
+      destruct st as [h pv]; destruct h; cbn in *; exact Hc.
+  - (* HValEnd *)
+    destruct Hs as (Ha & cpos & Hc & Hcv). rewrite (hit_valend pre _ i st Est). unfold hl_valend.
+    destruct (skipLWS false (c :: r)) as [k2|k2 crl|k2]; [| |intros E; discriminate E].
+    + unfold NT_res. intros _ Hk. set (kk := S (0 + k2)) in *.
+      pose proof (colon_ok_zpre kk pre (c :: r) i (hx_h st) cpos Hi Hc) as Hc'.
+      match goal with |- NT _ _ _ ?S => set (st' := S) end.
+      assert (F1 : hx_pv st' = None) by (subst st'; destruct st as [h pv]; exact Hp).
+      assert (F2 : h_state (hx_h st') = HVal) by (subst st'; destruct st as [h pv]; destruct h; reflexivity).
+      assert (F3 : h_name (hx_h st') = h_name (hx_h st)) by (subst st'; destruct st as [h pv]; destruct h; reflexivity).
+      assert (F5 : po (h_val (hx_h st')) = po (h_val (hx_h st))) by (subst st'; destruct st as [h pv]; destruct h; reflexivity).
+      clearbody st'. unfold NT. split; [exact F1|]. cbv zeta. rewrite F2, F3, F5. split; [exact Ha|].
+      exists cpos. split; [exact (colon_ok_name _ _ _ _ _ F3 Hc')|exact Hcv].
+    + intros _. apply (colon_buf a pre _ i _ cpos Hi); [destruct st as [h pv]; destruct h; cbn in *; exact Ha| |right; destruct st as [h pv]; destruct h; cbn in *; exact Hcv].
+      destruct st as [h pv]; destruct h; cbn in *; exact Hc.
+  - rewrite (hit_fin pre c r i st Est). intros E; discriminate E.
+Qed.
+
+(* whatever ParseHdrLine (generic value) accepts from a fresh header: the name starts at the start offset, is
+   a non-empty run of bytes that are neither white space nor ':', is followed by SP / HT only up to the colon;
+   the value is empty or starts after the colon *)
+Theorem hdrline_name_colon buf offs o st' : offs <= nnat (length buf) ->
+  parse_hdrline buf offs (mkhline hdr0 None) = Done o EOk st' -> name_colon offs buf (hx_h st').
+Proof.
+  intros Ho H. unfold parse_hdrline, parse in H. unfold zinit in H.
+  assert (Hi : offs = nnat (length (rev (firstn (N.to_nat offs) buf)))) by (rewrite rev_length, firstn_length; unfold nnat in *; lia).
+  pose proof (run_invQ hl_iter (NT offs) (NQ offs) (fun pre rest i s Hi' HP => NT_step offs pre rest i s Hi' HP)
+                (skipn (N.to_nat offs) buf) (rev (firstn (N.to_nat offs) buf)) offs (mkhline hdr0 None) Hi
+                ltac:(split; [reflexivity|cbn; split; reflexivity])) as R.
+  rewrite H in R. destruct R as (p' & r' & i' & _ & Eb & HQ). rewrite rev_involutive, firstn_skipn in Eb.
+  specialize (HQ eq_refl). rewrite Eb in HQ. exact HQ.
+Qed.
